@@ -100,7 +100,7 @@ class RandomSets(Fam):
     exhaustive = False
 
     def inputs(self, ctx):
-        n_small, n_large = (1500, 24) if ctx.tier == 'quick' else (20000, 250)
+        n_small, n_large = (1500, 8) if ctx.tier == 'quick' else (20000, 250)
         self.rule = (f'{n_small} seeded random pairs of sets with <=300 elements and {n_large} with up to 50,000 elements '
                      f'(nested, interleaved, disjoint, equal, one exhausted first, equal last elements, values spread over the '
                      f'whole range of the narrower dtype incl. its maximum), random dtype pairs')
